@@ -138,6 +138,23 @@ def rule_put(ck: Check, repo: Repo, rid: str = "R1") -> None:
         r.violation(f"{DL}.download_license", "URL construction", "base URL + <identifier>.txt", repo.loc(dl))
 
 
+def _acc(rc: str) -> str:
+    return rf"(?:{re.escape(rc)}(?:__in_loop)?)"
+
+
+def _sets_nonzero(value: str, rc: str) -> bool:
+    """The new value of the accumulated exit status is certainly non-zero."""
+    a = _acc(rc)
+    return re.fullmatch(rf"1|True|{a} \| 1|1 \| {a}|max\({a}, 1\)|max\(1, {a}\)|{a} or 1|\({a}\) \| 1", value) is not None
+
+
+def _keeps_value(value: str, rc: str) -> bool:
+    """The new value equals the old one (a success must not reset an earlier failure)."""
+    a = _acc(rc)
+    return re.fullmatch(rf"{a}|{a} \| 0|0 \| {a}|max\({a}, 0\)|max\(0, {a}\)|{a} or 0|\({a}\) \| 0|{a} \+ 0", value) is not None
+
+
+
 def rule_cli(ck: Check, repo: Repo) -> None:
     r = ck.rule("R2", "download command: '+' stripped, --all = missing licences, failures set the exit status and stay in the loop")
     cmds = repo.commands()
@@ -248,12 +265,12 @@ def rule_cli(ck: Check, repo: Repo) -> None:
             exc = re.search(r"raise\[(\w+)\]", raised[0]).group(1)
             want_report = {"URLError": "_could_not_download", "FileExistsError": "_already_exists",
                            "FileNotFoundError": "_not_found"}[exc]
-            if [e[2] for e in in_rc] != ["1"]:
+            if not (len(in_rc) == 1 and _sets_nonzero(in_rc[0][2], rc)):
                 r.violation(q, f"failure ({exc}) does not set a non-zero exit status", f"{in_rc}", repo.loc(fn))
             if reports != [want_report]:
                 r.violation(q, f"failure ({exc}) reporting", f"{reports}", repo.loc(fn))
         else:
-            if in_rc:
+            if any(not _keeps_value(e[2], rc) for e in in_rc):
                 r.violation(q, "success changes the return code", f"{in_rc}", repo.loc(fn))
             if reports != ["_successfully_downloaded"]:
                 r.violation(q, "success reporting", f"{reports}", repo.loc(fn))
